@@ -476,6 +476,7 @@ def run(ctx):
     r6.check(okp,
              ctx.construct(gp), 'get_project_id no longer returns the '
              'context project when authentication is enabled', ctx.loc(gp))
+    c16.admin_identity(ctx, r6)
     um = prog.func(DB + '.update_resource_member')
     cfg = ctx.cfg(um)
     muts = [n for n, c in cfg.calls() if U.call_name(c) == 'update' and
